@@ -289,6 +289,14 @@ Theorem C07_identity_random_prefix :
 Proof. exact identity_random_prefix. Qed.
 Print Assumptions C07_identity_random_prefix.
 
+(* sample_qubo: the BQM built from Q (self-loops folded into linear biases) has, on binary
+   samples, the energy of the QUBO as the user wrote it *)
+Theorem C07_from_qubo_energy :
+  forall (Q : list qterm) (s : sample),
+    respects (fun _ => BINARY) s -> energy (from_qubo Q) s = energy (qubo_poly Q) s.
+Proof. exact from_qubo_energy. Qed.
+Print Assumptions C07_from_qubo_energy.
+
 (* ================================================================== *)
 (* StructureComposite / TrackingComposite *)
 
